@@ -314,6 +314,9 @@ class Server(object):
         self._check_close_code(reply)
 
         if reply.code == '220':
+            # Anything the client pipelined behind STARTTLS was sent in the
+            # clear and must not be interpreted once the session is encrypted.
+            self.io.recv_buffer = b''
             if not self._encrypt_session():
                 tls_failure.send(self.io)
                 raise StopIteration()
